@@ -299,10 +299,10 @@ def _extract(text, opt):
         if isinstance(custom, Raised):
             return custom
         if isinstance(text, dict):
-            return call(get_citations, markup_text=text["markup"], clean_steps=list(text["steps"]), tokenizer=custom, **kw)
+            return call(get_citations, markup_text=text["markup"], clean_steps=text["steps"], tokenizer=custom, **kw)
         return call(get_citations, text, tokenizer=custom, **kw)
     if isinstance(text, dict):  # markup mode
-        return call(get_citations, markup_text=text["markup"], clean_steps=list(text["steps"]), tokenizer=toks["ac"], **kw)
+        return call(get_citations, markup_text=text["markup"], clean_steps=text["steps"], tokenizer=toks["ac"], **kw)
     return call(get_citations, text, tokenizer=toks["ac"], **kw)
 
 
@@ -316,6 +316,10 @@ def eval_history(case):
         text = texts[i % len(texts)]
         before = json.dumps(text, sort_keys=True) if isinstance(text, dict) else str(text)
         out = _extract(text, opt)
+        # the arguments (the list of cleaning steps is handed over as the caller's own object) are inputs, whether the
+        # call returns or raises
+        if (json.dumps(text, sort_keys=True) if isinstance(text, dict) else text) != before:
+            res.v("input-modified", f"step {step}: {before} became {json.dumps(text, sort_keys=True) if isinstance(text, dict) else text}")
         if isinstance(out, Raised):
             # an exception is a result too: the same call must raise every time or never
             res.label("raised")
@@ -333,8 +337,6 @@ def eval_history(case):
         if key in first and first[key] != s:
             res.v("history-dependent", f"step {step}: extract(text #{key[0]}, ra={key[1]}) differs from its first result: {_difference(first[key], s)}")
         first.setdefault(key, s)
-        if (json.dumps(text, sort_keys=True) if isinstance(text, dict) else text) != before:
-            res.v("input-modified", f"step {step}")
         kept.append((key, list(out), s))
         # the returned list belongs to the caller: mutate it in place (as `citations.extend(references)` would)
         m = (step + opt) % 4
@@ -517,6 +519,17 @@ def evaluate(case):
 _TIE_TEXTS = ["foo supra,§, bar", "12 S.W.2d, 345", "1 Rob. 1", "5 Johnson 0", "12 T.C. at 345", "1 CCH Unemployment Ins. Rep. 1", "12 Hughes (1877) 345"]
 
 
+def _markup_text():
+    """Marked-up input with the caller's list of cleaning steps - now and then a list without the required 'html' step
+    (an error path: whatever the call does, it must not touch the list)."""
+    return st.builds(lambda m, st_: {"markup": m["markup"], "steps": list(st_) if st_ is not None else m["steps"]},
+                     markup.marked_up(), st.sampled_from([None, None, ["all_whitespace"], ["inline_whitespace", "underscores"], []]))
+
+
+def _hist_text():
+    return st.one_of(_markup_text(), _text())
+
+
 def _text():
     return st.one_of(legal.document(hostile=False, multibyte=True, max_frags=5), legal.document(hostile=True, max_frags=4), st.sampled_from(_TIE_TEXTS))
 
@@ -588,7 +601,7 @@ def _history():
 def _plain_history():
     return st.builds(
         lambda texts, ops: {"kind": "history", "texts": texts, "ops": ops},
-        st.lists(_text(), min_size=1, max_size=4),
+        st.lists(_hist_text(), min_size=1, max_size=4),
         st.lists(st.tuples(st.integers(0, 3), st.sampled_from([0, 0, 1, 1, 0, 1, 2, 6, 10, 14])).map(list), min_size=2, max_size=10),
     )
 
